@@ -39,7 +39,8 @@ def required_cells(tier):
             "platform-names-case-variants", "pass-flags-reordered", "pass-headers-attributed", "clustering-with-case-variant-names",
             "order-dependent-exclude-patterns", "option-replacing-a-default-per-platform", "hard-linked-duplicate",
             "non-member-header:included-from-fortran-and-c", "non-member-header:forced-by-assembly-and-c",
-            "competing-modes-under-hash-seeds", "platforms-sharing-one-database"]
+            "competing-modes-under-hash-seeds", "platforms-sharing-one-database", "rounding-tie:distance", "rounding-tie:divergence",
+            "rounding-tie:average-coverage", "rounding-tie:distinct-enumeration-orders"]
 
 
 PASS_CONFIG = """[[compiler.gcc.parser]]
@@ -419,6 +420,96 @@ def competing_modes_scenario(ctx, base):
         acc.held(cells=cells, cls="mixed", nontrivial={"scenario": "competing modes"})
 
 
+# Platform-set tables whose metrics sit exactly on a rounding boundary of the two-decimal output, found by exhaustive
+# search over small tables (tools/find_rounding_ties.py): the mathematically exact value is x.xx5, and floating-point
+# sums taken in different orders land on either side of it.
+TIES = {
+    # distance(B, C) = (3 + 8 + 6 + 4) / 24 = 0.875: four terms summed in the order the table was filled
+    "distance": ({"": 1, "A": 5, "B": 3, "C": 8, "A,B": 6, "A,C": 4, "B,C": 3}, "enumeration order of the files"),
+    "distance-2": ({"": 3, "A": 7, "B": 4, "C": 5, "A,B": 3, "A,C": 6, "B,C": 4}, "enumeration order of the files"),
+    # divergence = mean of three distances, summed in the order a set of platform names iterates
+    "divergence": ({"": 4, "A": 7, "B": 3, "A,B": 1, "A,C": 1, "B,C": 1, "A,B,C": 2}, "string-hash seed"),
+    "divergence-2": ({"": 1, "A": 1, "B": 1, "C": 7, "A,B": 2, "A,C": 7, "B,C": 6, "A,B,C": 7}, "string-hash seed"),
+    # average coverage = mean of 100*u/24 for u = 1, 1, 1, 6: 9.375
+    "average-coverage": ({"": 15, "A": 1, "B": 1, "C": 1, "D": 6}, "string-hash seed"),
+    "average-coverage-2": ({"": 5, "A": 1, "B": 2, "C": 5, "D": 7, "A,B": 4}, "string-hash seed"),
+}
+
+
+def rounding_tie_scenarios(ctx, base, names):
+    """A code base with one file per platform set and exactly the line counts of a TIES table, analysed in fresh
+    processes under 8 hash seeds, 6 shuffled directory enumerations and 3 file-creation orders; every printed number
+    (summary metrics and distance matrix) must be the same in all of them."""
+    acc = ctx.acc
+    for name in names:
+        table, what = TIES[name]
+        d = os.path.join(base, "tie-" + name)
+        shutil.rmtree(d, ignore_errors=True)
+        root = os.path.join(d, "root")
+        plats = sorted({p for k in table for p in k.split(",") if p})
+        variants = [("hashseed", dict(hashseed=str(h), shuffle=None, order=0)) for h in range(8)] + \
+                   [("shuffle", dict(hashseed="0", shuffle=20 + k, order=0)) for k in range(6)] + \
+                   [("creation-order", dict(hashseed="0", shuffle=None, order=k)) for k in (1, 2, 3)]
+        results = []
+        cur = None
+        for tag, v in variants:
+            if v["order"] != cur:
+                shutil.rmtree(root, ignore_errors=True)
+                os.makedirs(os.path.join(root, "src"))
+                items = sorted(table.items())
+                random.Random(v["order"]).shuffle(items)
+                for key, count in items:
+                    with open(os.path.join(root, "src", "s_%s.c" % (key.replace(",", "") or "none")), "w") as f:
+                        f.write("".join("int v%d;\n" % i for i in range(count)))
+                for p in plats:
+                    with open(os.path.join(root, p + ".json"), "w") as f:
+                        json.dump([{"file": "src/s_%s.c" % key.replace(",", ""), "directory": root,
+                                    "arguments": ["gcc", "-c", "src/s_%s.c" % key.replace(",", "")]}
+                                   for key in sorted(table) if p in key.split(",")], f)
+                with open(os.path.join(root, "analysis.toml"), "w") as f:
+                    for p in plats:
+                        f.write(f"[platform.{p}]\ncommands = \"{p}.json\"\n\n")
+                cur = v["order"]
+            dump = os.path.join(d, "dump.json")
+            launch = {"dump": dump}
+            if v["shuffle"] is not None:
+                launch["shuffle"] = v["shuffle"]
+            rc, out, err = cli.run("codebasin", ["-R", "summary", "-R", "clustering", "analysis.toml"], root, launch=launch,
+                                   hashseed=v["hashseed"], timeout=600)
+            acc.hook("cli-runs")
+            if rc != 0:
+                results.append((tag, v, {"error": err[-300:]}))
+                continue
+            dd = json.load(open(dump))
+            sm = cli.parse_summary(out)
+            hdr, cells_ = cli.parse_distance_matrix(out)
+            results.append((tag, v, {"metrics": sm["metrics"], "distance_matrix": {f"{a}|{b}": x for (a, b), x in sorted(cells_.items())},
+                                     "setmap": dd["setmap"], "_order": [os.path.basename(q) for q in dd["codebase_order"]]}))
+        cells = {"rounding-tie:" + name.split("-2")[0]}
+        ok = [o for _, _, o in results if "error" not in o]
+        want = {k: c for k, c in table.items()}
+        got = {",".join(sorted(k.split(","))) if k else "": c for k, c in (ok[0]["setmap"].items() if ok else [])}
+        if not ok or {k: c for k, c in got.items() if c} != {k: c for k, c in want.items() if c}:
+            # the constructed code base did not realise the table: nothing can be concluded from it
+            acc.inconc("rounding-tie table not realised: " + name, {"expected": want, "observed": got or results[0][2]})
+            continue
+        if len({json.dumps(o["_order"]) for o in ok}) >= 2:
+            cells.add("rounding-tie:distinct-enumeration-orders")
+        distinct = {json.dumps({k: o[k] for k in ("metrics", "distance_matrix")}, sort_keys=True) for o in ok}
+        errors = [(t, v, o["error"]) for t, v, o in results if "error" in o]
+        if len(distinct) > 1 or errors:
+            by = {}
+            for t, v, o in results:
+                if "error" not in o:
+                    by.setdefault(json.dumps({"metrics": o["metrics"], "distance_matrix": o["distance_matrix"]}, sort_keys=True), []).append([t, v])
+            acc.violated({"input": {"scenario": "rounding tie", "table": table},
+                          "witness": {"kind": "printed metrics depend on " + what, "table": table, "outputs": [
+                              {"output": json.loads(k), "runs": r[:4], "n_runs": len(r)} for k, r in by.items()], "errors": errors[:2]}},
+                         cells=cells, cls="tie")
+        else:
+            acc.held(cells=cells, cls="tie", nontrivial={"table": table})
+
+
 def run_shard(ctx):
     b = bounds(ctx.tier)
     base = os.path.join(ctx.scratch, "c14")
@@ -426,6 +517,10 @@ def run_shard(ctx):
         mixed_language_scenarios(ctx, base)
     if ctx.shard == 1 % ctx.nshards:
         competing_modes_scenario(ctx, base + "-modes")
+    tie_names = sorted(TIES)
+    mine = [n for k, n in enumerate(tie_names) if (k + 2) % ctx.nshards == ctx.shard]
+    if mine:
+        rounding_tie_scenarios(ctx, base + "-tie", mine)
     rng = ctx.rng("cases")
     for i in range(b["cases"]):
         case = gen_case(rng, i)
